@@ -203,7 +203,18 @@ def rule_d(prog, rep):
                     ps = (it[2] == pol)
                 if c.get('k') == 'path' and b.origins(c) == {'param(deleted)'}:
                     dl = (it[2] == pol)
-            ev = ctor_name(b.deref_local(nd['args'][1])) or '?'
+            arg = b.deref_local(nd['args'][1])
+            if isinstance(arg, dict) and arg.get('k') == 'if' and 'else' in arg and dl is None:
+                # `let event = if deleted { Deleted(..) } else { KeyValuePairs(..) }; send(event)`: the value carries the split
+                c, pol = strip_not(arg['cond'])
+                if c.get('k') == 'path' and b.origins(c) == {'param(deleted)'}:
+                    for branch, val in ((True, arg['then']), (False, arg['else'])):
+                        v_ = val
+                        while isinstance(v_, dict) and v_.get('k') == 'block' and 'tail' in v_:
+                            v_ = v_['tail']
+                        seen[(ps, branch == pol)] = (short(callee(nd)), ctor_name(b.deref_local(v_)) or '?', nd)
+                    continue
+            ev = ctor_name(arg) or '?'
             seen[(ps, dl)] = (short(callee(nd)), ev, nd)
     for key, (m, ev) in want.items():
         row = f'pstate={key[0]},deleted={key[1]}'
